@@ -1306,3 +1306,86 @@ Proof.
   fold a1 in E. rewrite (find_optimal_ok x a1 cs m Hok) in E. inversion E; subst.
   now apply (arg_opt_values m f (v_dom x) v Hne Hn).
 Qed.
+
+(* ================================================================== interface aliases
+   (same facts in the "given the result" form, convenient for later developments) *)
+Lemma dims_join u1 u2 j :
+  wf_rel u1 -> wf_rel u2 -> NoDup (names (join_dims (r_dims u1) (r_dims u2))) ->
+  join u1 u2 = Ok j -> r_dims j = join_dims (r_dims u1) (r_dims u2) /\ wf_rel j.
+Proof.
+  intros W1 W2 Hnd E. destruct (join_ok u1 u2 W1 W2 Hnd) as [j' [E' [D [W _]]]].
+  rewrite E in E'. inversion E'; subst. auto.
+Qed.
+
+Lemma sem_join u1 u2 j b :
+  wf_rel u1 -> wf_rel u2 -> NoDup (names (join_dims (r_dims u1) (r_dims u2))) ->
+  join u1 u2 = Ok j -> covers (join_dims (r_dims u1) (r_dims u2)) b ->
+  sem j b = ec_add (sem u1 b) (sem u2 b).
+Proof.
+  intros W1 W2 Hnd E Hb. destruct (join_ok u1 u2 W1 W2 Hnd) as [j' [E' [_ [_ S]]]].
+  rewrite E in E'. inversion E'; subst. now apply S.
+Qed.
+
+Lemma dims_projection r x m pj :
+  wf_rel r -> NoDup (names (r_dims r)) -> In x (r_dims r) -> projection r x m = Ok pj ->
+  exists pre post, r_dims r = pre ++ x :: post /\ r_dims pj = pre ++ post /\ wf_rel pj.
+Proof.
+  intros W Hnd Hin E. destruct (projection_ok r x m W Hnd Hin) as [pj' [pre [post [E' [D1 [D2 [W' _]]]]]]].
+  rewrite E in E'. inversion E'; subst. eauto.
+Qed.
+
+Lemma sem_projection r x m pj b :
+  wf_rel r -> NoDup (names (r_dims r)) -> In x (r_dims r) -> projection r x m = Ok pj ->
+  covers (r_dims pj) b ->
+  sem pj b = opt_cost m (fun v => sem r ((v_name x, v) :: b)) (v_dom x).
+Proof.
+  intros W Hnd Hin E Hb. destruct (projection_ok r x m W Hnd Hin) as [pj' [pre [post [E' [D1 [D2 [W' S]]]]]]].
+  rewrite E in E'. inversion E'; subst. apply S. now rewrite <- D2.
+Qed.
+
+Lemma sem_slice r pa sl b :
+  wf_rel r -> keys_in pa (r_dims r) ->
+  (forall v, In v (r_dims r) -> forall val, zlookup (v_name v) pa = Some val -> In val (v_dom v)) ->
+  slice r pa = Ok sl -> covers (r_dims sl) b -> sem sl b = sem r (pa ++ b).
+Proof.
+  intros W Hk Hv E Hb. destruct (slice_ok r pa W Hk Hv) as [sl' [E' [_ [_ S]]]].
+  rewrite E in E'. inversion E'; subst. now apply S.
+Qed.
+
+Lemma dims_slice r pa sl :
+  wf_rel r -> keys_in pa (r_dims r) ->
+  (forall v, In v (r_dims r) -> forall val, zlookup (v_name v) pa = Some val -> In val (v_dom v)) ->
+  slice r pa = Ok sl -> r_dims sl = filter (unset pa) (r_dims r) /\ wf_rel sl.
+Proof.
+  intros W Hk Hv E. destruct (slice_ok r pa W Hk Hv) as [sl' [E' [D [W' _]]]].
+  rewrite E in E'. inversion E'; subst. auto.
+Qed.
+
+Lemma NoDup_snoc {A} (l : list A) x : NoDup l -> ~ In x l -> NoDup (l ++ [x]).
+Proof.
+  induction l as [|y l IH]; intros Hn Hx; simpl.
+  - constructor; auto. constructor.
+  - inversion Hn; subst. constructor.
+    + intro Hin. apply in_app_or in Hin as [Hin|[<-|[]]]; auto. apply Hx. now left.
+    + apply IH; auto. intro. apply Hx. now right.
+Qed.
+
+(* names of a joined scope are distinct when both scopes have distinct names and a name
+   denotes the same variable in both *)
+Lemma join_dims_nodup d2 : forall d1,
+  NoDup (names d1) -> NoDup (names d2) ->
+  (forall v w, In v d1 -> In w d2 -> v_name v = v_name w -> v = w) ->
+  NoDup (names (join_dims d1 d2)).
+Proof.
+  unfold join_dims. induction d2 as [|d d2 IH]; intros d1 N1 N2 Hc; simpl; auto.
+  inversion N2 as [|n l Hnotin N2']; subst. destruct (var_mem d d1) eqn:Em.
+  - apply IH; auto. intros v w Hv Hw. apply Hc; auto. now right.
+  - apply IH; auto.
+    + rewrite names_app. simpl. apply NoDup_snoc; auto. intro Hin.
+      unfold names in Hin. apply in_map_iff in Hin as [v [En Hv]].
+      assert (v = d) by (apply Hc; auto; now left). subst v.
+      apply var_mem_In in Hv. congruence.
+    + intros v w Hv Hw En. apply in_app_or in Hv as [Hv|[<-|[]]].
+      * apply Hc; auto. now right.
+      * exfalso. apply Hnotin. rewrite En. now apply in_names.
+Qed.
